@@ -23,6 +23,7 @@
     `C15_settle_case13_tail_independent`  last decoded item not a final packet (none at all, or a final one
                                        followed by more items): the generic tail is never consulted — a final
                                        packet further left answers trailing garbage whatever the tail
+    `C15_settle_tails_at_stop`         both tails read off `dec` / `Codec.generic` AT the stop position (no walk)
     `C15_settle_generic_tail`          bridge: `truncatedStop` ⇔ the two tails differ (typed: decode error, generic: clean end)
 
   When `Codec` answers `unmodelled`, `settle` passes the error through (`Front.settle … (.error w) = .error w`,
@@ -115,6 +116,21 @@ theorem C15_settle_generic_tail {β : Type} (d : Codec.Dec β) (fuel : Nat) (b :
     (Front.truncatedStop d fuel b = false → genericTail d fuel b = ps.tail) :=
   genericTail_blocks d fuel b ps h
 
+/-- both tails described AT the stop position `s = stopAt d fuel b` (the input left when the typed
+    read fails for the first time), without the walk: typed read `eof` — both tails `eof`; otherwise
+    `Codec.generic s` decides — an object: it is the last item (`none`: trailing garbage for whoever
+    gets there; never a final packet) and nothing is read behind it; end of input: typed tail decode
+    error, generic tail clean end (THE case where the two differ); failure: both a decode error -/
+theorem C15_settle_tails_at_stop {β : Type} (d : Codec.Dec β) (fuel : Nat) (b : Bytes) (ps : PStream β)
+    (h : Codec.blocks d fuel b = .ok ps) :
+    (d (stopAt d fuel b) = .error .eof ∧ ps.tail = .eof ∧ genericTail d fuel b = .eof) ∨
+    (∃ w, d (stopAt d fuel b) = .error (.err w) ∧
+      ((∃ y pre, Codec.generic (stopAt d fuel b) = .ok y ∧ ps.items = pre ++ [none] ∧ ps.tail = .eof) ∨
+       (Codec.generic (stopAt d fuel b) = .error .eof ∧ ps.tail = .err .decodeError ∧ genericTail d fuel b = .eof) ∨
+       (∃ w', Codec.generic (stopAt d fuel b) = .error (.err w') ∧ ps.tail = .err .decodeError ∧
+          genericTail d fuel b = .err .decodeError))) :=
+  tails_at_stop d fuel b ps h
+
 /-! ## kernel-evaluated instances (toy primitives) -/
 
 def anyRingS : Keyring := ⟨fun _ => (-1, none), fun _ => none, [], fun _ => none, fun k => some k⟩
@@ -142,6 +158,9 @@ example : (Codec.splitSig (sigMsg ++ [0xc4, 0x05, 0x01])).toOption.map
     (fun x => let r := refVerify Toy.prims knownMajor anyRingS x.1 x.2.items x.2.tail
                 (genericTailOf Codec.decSigHeader sigDecB (sigMsg ++ [0xc4, 0x05, 0x01])); (r.released, r.err)) =
     some ([0x41], none) := by decide +kernel
+
+/-- the stop position of that input is the appended object -/
+example : stopAt (Codec.decSigBlock 2) 100 (sigPacket ++ [0xc4, 0x05, 0x01]) = [0xc4, 0x05, 0x01] := by decide +kernel
 
 /-- case 3: the genuine message followed by a whole second (final) packet — the LAST decoded packet
     is final, yet the receiver never gets there: trailing garbage after the first final packet -/
